@@ -448,6 +448,12 @@ def _r5(ctx, pkg):
                 nwrites += 1
                 text = " ".join(hit.split())
                 why = SANCTIONED_INPUT_WRITES.get((qual, text))
+                if why is None and isinstance(n, ast.Call) and not n.args and not n.keywords and isinstance(n.func.value, ast.Name):
+                    # the same sanctioned call by ROLE: on the input object under whatever name the parameter has, in the sanctioned
+                    # function or in a private helper that is a piece of it (reached from it and called from nowhere else)
+                    for (aq, atext), w in SANCTIONED_INPUT_WRITES.items():
+                        if atext.split(".", 1)[-1] == f"{n.func.attr}()" and (qual == aq or _helper_of(pkg, qual, aq)):
+                            why = w
                 ctx.check(why is not None, "R5", f"{qual}:writes input:{text[:70]}", (f, n.lineno),
                           f"sanctioned: {why}" if why else
                           "the renderer changes an object it was given (the network's own table/list): a second rendering of the same network starts from different data -- the output depends on how often it was rendered",
